@@ -153,6 +153,12 @@ Definition atoi_ub_step (st : bool * Z) (ch : N) : bool * Z :=
 Definition atoi_ub (s : list N) : bool := fst (fold_left atoi_ub_step (cstr s) (false, 0)).
 Local Open Scope N_scope.
 
+(* calc_chksum (F09 / D4): *reinterpret_cast<const uint32_t*>(from + ii), ii = 0, 4, .. < elen - elen % 8:
+   a misaligned load (UB) as soon as one word is read from a buffer that is not 4-aligned.
+   Message::encode calls it on output + 32 - hlen, i.e. practically always misaligned; the alignment
+   check is switched off in the harness builds except for the CHKSUM op of h_c03. *)
+Definition chksum_ub (misalign len : N) : bool := negb (misalign mod 4 =? 0) && (8 <=? len).
+
 (* Field<int> built from a C string is what decode builds for the int classes ft_int .. ft_end_int *)
 Definition val_ub (c : ctx) (f : N) (v : list N) : bool :=
   match find_be (c_fields c) f with
